@@ -12,28 +12,29 @@ NOTE = ("Trusted: Coq 8.16.1 kernel + vm_compute; no axioms (Print Assumptions c
 CHECKS = {
     "C12": dict(
         category="other",
-        text="Machine-checked for ALL documents (Props/C12.v, 9 theorems) over the model of goto.rs: no handler panics on a "
-             "well-formed document (predicate nav_wf_b, validated on every analysed document), no identifier under the cursor or "
+        text="Machine-checked for ALL documents (Props/C12.v, 10 theorems) over the model of goto.rs: no handler panics on a "
+             "well-formed document (predicate nav_wf_b, evaluated on every analysed document), no identifier under the cursor or "
              "no context => no location, predefined entities / int / anonymous array types / primitive-typed variables => no "
              "location (never an error), definition = declaration, every returned range is the range of a token, implementation "
-             "agrees with declaration whenever it answers. The full functional statement (answer = the declaring occurrence under "
-             "SPL scoping) is stated and REFUTED for two shadowing shapes (known findings C12-proc-name-shadowed-by-own-local, "
-             "C12-type-use-shadowed-by-local: handlers resolve by name, locals first, ignoring the syntactic role). Otherwise it is "
-             "decided per input: model = server on every identifier occurrence x column, non-identifier tokens, gaps, outside "
-             "positions, malformed documents; oracle from bindings computed from the derivation (tools/splscope.py).",
+             "agrees with declaration whenever it answers, in a global position (name of a declaration, type expression) locals "
+             "are ignored, elsewhere a local wins. The full functional statement (answer = the declaring occurrence under SPL "
+             "scoping, formalised in Spec/Nav.v over the tree) is stated, not proved; the extracted judge decides every instance "
+             "of it on every generated document (command 37), and it holds on all former counterexamples after /repo's repair "
+             "b909979. Decided per input: model = server on every identifier occurrence x column, non-identifier tokens, gaps, "
+             "outside positions, malformed documents; oracle from bindings computed from the derivation (tools/splscope.py).",
         design_ref="DESIGN.md sections 5 (C12) and 10.2",
         technique="Coq proof of robustness and answer-shape theorems over a Gallina model of the handlers + correspondence through the binary + scoping oracle"),
     "C13": dict(
         category="other",
-        text="Machine-checked for ALL documents (Props/C13.v, 12 theorems) over the model of references.rs: no handler panics "
-             "under nav_wf_b, no identifier => null from all three requests, int is never renamed, every collected identifier "
-             "carries the cursor's name, prepareRename is null exactly when rename is and returns the identifier token's range, "
-             "every reference is one of rename's edits, each edit is the range of a token with the cursor's name. The full "
-             "statement (exactly the occurrences of one binding) is stated and refuted for four shapes recorded as known "
-             "findings (name-based resolution ignoring the syntactic role; rename offered on predefined procedures; a local "
-             "named int). Decided per input otherwise: model = server on all occurrences; oracle: occurrence partition from the "
-             "derivation, and the rename round trip (apply with an independent edit model, same diagnostics, same partition, "
-             "rename back restores the text).",
+        text="Machine-checked for ALL documents (Props/C13.v, 13 theorems) over the model of references.rs: no handler panics "
+             "under nav_wf_b, no identifier => null from all three requests, predefined names are never renamed and user names "
+             "always are, every collected identifier carries the cursor's name, prepareRename null implies rename null and (with a "
+             "context) conversely, prepareRename returns the identifier token's range, every reference is one of rename's edits, "
+             "each edit is the range of a token with the cursor's name, global positions ignore locals. The full statement "
+             "(exactly the occurrences of one binding, Spec/Nav.v) is stated, not proved; the judge decides every instance on every "
+             "generated document, and it holds on all former counterexamples after /repo's repair b909979. Decided per input: "
+             "model = server on all occurrences; oracle: occurrence partition from the derivation and the rename round trip "
+             "(apply with an independent edit model, same diagnostics, same partition, rename back restores the text).",
         design_ref="DESIGN.md sections 5 (C13) and 10.2",
         technique="Coq proof of robustness and answer-shape theorems over a Gallina model of the handlers + correspondence through the binary + binding/round-trip oracle"),
     "C14": dict(
@@ -49,16 +50,16 @@ CHECKS = {
         technique="Coq proof of answer-shape and robustness theorems over Gallina models of the handlers + correspondence through the binary + scoping oracle"),
     "C15": dict(
         category="other",
-        text="Machine-checked (Props/C15.v, 11 theorems) over the model of semantic_tokens.rs, for ALL documents satisfying the "
+        text="Machine-checked (Props/C15.v, 12 theorems) over the model of semantic_tokens.rs, for ALL documents satisfying the "
              "executable predicate doc_wf_b: no slice panic and no u32 underflow (C15_no_panic), the decoded stream is the image "
              "of an order-preserving subsequence of the document's lexical tokens with their positions and UTF-16 lengths "
-             "(C15_coincide), strictly increasing and disjoint (C15_increasing, C15_disjoint), keywords / numbers / comments "
-             "inside declarations carry exactly their lexical class. doc_wf_b is proved for lexer output (token half) and parser "
-             "output (ordering half) and reduced to a name condition for analysed documents; that remaining condition is "
-             "evaluated by the judge on every case. The binding-kind half is stated and refuted for identifiers in type position "
-             "shadowed by a local (known finding); comments behind the last declaration are not reported (known finding). "
-             "Decided per input: model = server; well-formedness oracle on all documents incl. malformed; classification oracle "
-             "from the derivation.",
+             "(C15_coincide), strictly increasing and disjoint, keywords / numbers / comments carry exactly their lexical class and "
+             "are ALL reported, including comments behind the last declaration (C15_lexical_reported_everywhere; declarations plus "
+             "trailing slice cover every token: C15_new_doc_covered). doc_wf_b is proved for lexer output (token half) and parser "
+             "output (ordering half) and reduced to a name condition for analysed documents; that condition is evaluated by the "
+             "judge on every case. The binding-kind half of the full statement is stated, not proved; decided per input: model = "
+             "server; well-formedness oracle on all documents incl. malformed; classification oracle from the derivation (incl. "
+             "type uses shadowed by locals, repaired in /repo b909979).",
         design_ref="DESIGN.md sections 5 (C15) and 10.2",
         technique="Coq proof of well-formedness of the delta-encoded stream over a Gallina model + correspondence through the binary + classification oracle"),
     "C16": dict(
@@ -185,17 +186,19 @@ CHECKS = {
         technique="Coq proof of resynchronisation, tiling, locality and shift-invariance (containment) over a Gallina model of the parser + exhaustive single-token damage campaign on the implementation"),
     "C01": dict(
         category="other",
-        text="Machine-checked (Props/C01.v), for ALL documents and ALL edit histories: the text and the token stream of the "
-             "incrementally updated document are those of a fresh analysis and the lexer never fails (from the C07 theorem); "
-             "if the updated tree equals the scratch tree the whole document up to the tree is the fresh one (C01_partial). The "
-             "remaining hypothesis is REFUTED for the code as it is (C01_tree_refuted, C01_full_statement_refuted: a concrete "
-             "edit on which parser::update differs from parser::parse) - the property does not hold; this is recorded as known "
-             "finding C01-incparse, not repaired (redesign of the incremental parser). The check decides every generated "
-             "history by (1) correspondence: a faithful Gallina transcription of AnalyzedSource::update incl. the pinned "
-             "incremental parser (Model/ParserInc.v, Model/UpdateDoc.v) must reproduce the real updated document (tree with "
-             "all diagnostics, errors(), table) after every notification, and (2) an implementation oracle update(doc) == "
-             "new(text) field by field: a divergence predicted by the model is the known finding, any other divergence (or any "
-             "deviation from the model) is a violation.",
+        text="Machine-checked (Props/C01.v, 13 theorems), for ALL documents and ALL histories of notifications: the text and "
+             "the token stream of the incrementally updated document are those of a fresh analysis and the lexer never fails "
+             "(from C07); the tree returned by parser::update carries syntax errors only, whatever old tree it started from "
+             "(C01_no_stale_messages: remove_messages reaches every node), so table and build/semantic diagnostics are recomputed "
+             "from a clean tree; hence if the updated parse-level tree equals the scratch tree, the WHOLE updated document (tree "
+             "with all diagnostics, table) is the freshly analysed one (C01_partial_document); a notification without changes "
+             "leaves the document untouched; the incremental parser without an old tree IS the scratch parser "
+             "(C01_inc_none_is_scratch). The remaining hypothesis - parser::update agrees with parser::parse - is REFUTED for the "
+             "code as it is (C01_tree_refuted, C01_full_statement_refuted): known finding C01-incparse, not repaired (redesign). "
+             "The check decides every generated history by (1) correspondence: the transcription of AnalyzedSource::update incl. "
+             "the pinned incremental parser must reproduce the real updated document after every notification, and (2) an oracle "
+             "update(doc) == new(text) field by field: a divergence predicted by the model is the known finding, any other "
+             "divergence (or any deviation from the model) is a violation.",
         design_ref="DESIGN.md section 5, C01",
         technique="Coq proof of the text/token layers and refutation of the tree layer + model/implementation correspondence discriminating the known finding"),
     "C20": dict(
